@@ -171,6 +171,11 @@ def cases(prop):
                 for again in (("start",), ("advance_to", 9)):
                     yield kind, [], None, [first, ("schedule", 7), again], 0, 0
                     yield kind, [2], None, [first, ("schedule", 7), again], 0, 0
+            # cancelled work (also as the last thing queued) neither hangs a run nor breaks it, and the scheduler can go on afterwards
+            for dues in ([2], [1, 2], [2, 2, 3]):
+                for cancel in range(len(dues)):
+                    for ops in ([("advance_to", 5)], [("advance_by", 5)], [("start",)], [("advance_to", 5), ("schedule", 7), ("start",)]):
+                        yield kind, dues, cancel, ops, 0, 0
         return
     for kind in ("virtual", "test", "historical"):
         for n in range(0, 4):
